@@ -119,6 +119,14 @@ func init() {
 	}{{"U8", 8}, {"U16", 16}, {"U32", 32}, {"U64", 64}, {"Int", 64}, {"I64", 64}} {
 		w := k.w
 		sx(k.n, func(in *Interp, fr *frame, a []Value, _ *ssa.CallCommon) Value {
+			if in.opts.IntLimbs && w == 64 {
+				// integer-encoded input: an Int variable in [0,2^64) viewed as a bit-vector
+				v := in.symScalar(argStr(a[0]), IntSort, "uint")
+				in.tt.rangeVars[v] = 64
+				in.assume(in.tt.ICmp(OILe, in.tt.IntI(0), v))
+				in.assume(in.tt.ICmp(OILt, v, in.tt.Int(pow2(64))))
+				return in.tt.Int2BV(64, v)
+			}
 			return in.symScalar(argStr(a[0]), BVSort(w), "uint")
 		})
 	}
